@@ -228,6 +228,13 @@ Fixpoint admissible (u : unicode) (prev : option token) (items : list (text * to
       sepgap u sep /\ printable u t /\ sep_admissible prev sep t /\ admissible u (Some t) r
   end.
 
+(* the last token of prev, t_1, ..., t_n *)
+Fixpoint last_tok (prev : option token) (items : list (text * token)) : option token :=
+  match items with
+  | [] => prev
+  | (_, t) :: r => last_tok (Some t) r
+  end.
+
 Definition trail_admissible (last : option token) (trail : text) : Prop :=
   match last, trail with
   | Some p, c :: _ => c = 47%N -> p <> TFix KSlash
